@@ -376,10 +376,7 @@ Definition tool_main (t : tool) (fl : flavour) (argv : list str) (w : world) : o
       let name := nth i argv' [] in
       match input_of w name with
       | InOpenFail =>
-          match t with
-          | W2X => Done (mkObs 0 SNone [] [MFailedOpenIn name] None)
-          | X2W => Done (mkObs 0 SNone [MFailedOpenIn name] [] None)   (* printf, not fprintf(stderr) *)
-          end
+          Done (mkObs 0 SNone [] [MFailedOpenIn name] None)   (* both tools: fprintf(stderr, ...) since 1510f5b *)
       | InReadErr =>
           match t with
           | W2X => Done (mkObs 0 SNone [] [MReadErr name] None)
